@@ -695,7 +695,7 @@ func runC05(r *vk.Run) {
 		return dumpExpr(e), nil
 	}
 
-	r.Phase("positive", r.N(4000, 200000), func(c *vk.Case) {
+	r.Phase("positive", r.N(4000, 1500000), func(c *vk.Case) {
 		rng := c.Rng
 		var g gq
 		kind := "log"
@@ -745,7 +745,7 @@ func runC05(r *vk.Run) {
 	})
 
 	// negative: static rules and grammar violations over generated parts
-	r.Phase("negative", r.N(600, 20000), func(c *vk.Case) {
+	r.Phase("negative", r.N(600, 150000), func(c *vk.Case) {
 		rng := c.Rng
 		sel := layout(rng, genSelectorTok(rng).T, 1)
 		selPipe := layout(rng, genLogTok(rng).T, 1)
